@@ -111,7 +111,9 @@ fn cmp_prefix(rng: &mut Rng) -> &'static str {
 }
 
 /// Strings that a templating step might mistake for its own placeholder, and typical device paths.
-pub const PLACEHOLDERS: [&str; 22] = [
+pub const PLACEHOLDERS: [&str; 34] = [
+    // characters a templating step might reserve as an internal marker
+    "\u{fdd0}", "a\u{fdd0}b", "\u{ffff}", "\u{fffe}", "\u{e000}", "\u{f8ff}", "\u{1}", "\u{1f}", "\u{7f}x", "\u{fffd}", "\u{10ffff}", "\u{1a}",
     "{mdt}", "{}", "{0}", "{path}", "{device}", "{mdt_path}", "%s", "%MDT%", "$mdt", "${mdt}", "@mdt@", "<mdt>", "__MDT__",
     "{{mdt}}", "{mdt", "mdt}", "MDT", "/dev/sim0", "/", "/dev/mapper/mdt0", "{dev}", "#mdt#",
 ];
